@@ -923,6 +923,14 @@ impl<'a> Cx<'a> {
                 self.class |= (n as u64) << 4;
                 self.finish(out, Exp::new(vec![ev_write(Reg::Dr(n), v)], Some(vec![])))
             }
+            "dr6_traps" => {
+                let out = call(&label, false, || {
+                    let v = Dr6::read();
+                    (0..4u8).map(|n| v.contains(x86_64::registers::debug::Dr6Flags::trap(DebugAddressRegisterNumber::new(n).unwrap())) as u64).collect::<Vec<u64>>()
+                });
+                let p = self.m.dr[6];
+                self.finish(out, Exp::new(vec![ev_read(Reg::Dr(6), p)], Some((0..4).map(|n| p >> n & 1).collect())))
+            }
             "dr7_read_fields" => {
                 let out = call(&label, false, || {
                     let v = Dr7::read();
@@ -953,8 +961,27 @@ impl<'a> Cx<'a> {
                     o
                 };
                 let (cond, size) = (get4("cond"), get4("size"));
+                let helpers = self.s["helpers"].as_bool().unwrap_or(false);
                 let out = call(&label, false, || {
-                    let mut v = Dr7Value::from(Dr7Flags::from_bits_truncate(flags));
+                    let mut v = if helpers {
+                        // the same value assembled with the per-register helpers and flag editors
+                        let mut v = Dr7Value::from_bits(0).unwrap();
+                        for n in 0..4u8 {
+                            let k = DebugAddressRegisterNumber::new(n).unwrap();
+                            if flags >> (2 * n) & 1 != 0 {
+                                v.insert_flags(Dr7Flags::local_breakpoint_enable(k));
+                            }
+                            v.set_flags(Dr7Flags::global_breakpoint_enable(k), flags >> (2 * n + 1) & 1 != 0);
+                        }
+                        v.toggle_flags(Dr7Flags::from_bits_truncate(flags & !0xff));
+                        v.insert_flags(Dr7Flags::GENERAL_DETECT_ENABLE);
+                        if flags & Dr7Flags::GENERAL_DETECT_ENABLE.bits() == 0 {
+                            v.remove_flags(Dr7Flags::GENERAL_DETECT_ENABLE);
+                        }
+                        v
+                    } else {
+                        Dr7Value::from(Dr7Flags::from_bits_truncate(flags))
+                    };
                     for n in 0..4u8 {
                         let k = DebugAddressRegisterNumber::new(n).unwrap();
                         // R/W: 00 execute, 01 write, 10 I/O, 11 read/write; LEN: 00 1 byte, 01 2, 10 8, 11 4
@@ -1241,8 +1268,18 @@ impl<'a> Cx<'a> {
             }
             "seg_set" => {
                 let (sreg, sel) = ((self.u("seg") % 6) as u8, self.u("sel") as u16);
+                let built = self.s["built"].as_bool().unwrap_or(false);
+                // (a selector built from index and RPL cannot name the LDT)
+                let sel = if built { sel & !4 } else { sel };
                 let out = call(&label, true, || unsafe {
-                    let s = SegmentSelector(sel);
+                    let s = if built {
+                        // index + RPL through the constructor and the RPL setter (TI stays 0)
+                        let mut s = SegmentSelector::new(sel >> 3, x86_64::PrivilegeLevel::Ring0);
+                        s.set_rpl(x86_64::PrivilegeLevel::from_u16(sel & 3));
+                        s
+                    } else {
+                        SegmentSelector(sel)
+                    };
                     match sreg {
                         0 => ES::set_reg(s),
                         1 => CS::set_reg(s),
@@ -1348,6 +1385,36 @@ impl<'a> Cx<'a> {
                 }
                 let p = pushed(self, &out.trace)?;
                 self.finish(out, Exp::new(vec![Ev::Pushfq { val: p }], Some(vec![if typed { p & RFLAGS_ALL } else { p }])))
+            }
+            "rflags_update" => {
+                // update = typed read, closure, typed write (which reads again to keep the reserved bits)
+                let x = self.u("xor") & RFLAGS_ARG_SAFE;
+                let mut seen = 0u64;
+                let out = call(&label, true, || unsafe {
+                    rflags::update(|f| {
+                        seen = f.bits();
+                        *f = RFlags::from_bits_truncate(f.bits() ^ x);
+                    })
+                })
+                .map(|_| vec![]);
+                if out.r.is_err() || out.overrun {
+                    return self.finish(out, Exp::new(vec![], None));
+                }
+                let a = pushed(self, &out.trace)?;
+                let reads: Vec<u64> = out.trace.iter().filter_map(|e| if let Ev::Pushfq { val } = e { Some(*val) } else { None }).collect();
+                let b = *reads.last().unwrap_or(&a);
+                if b & !RFLAGS_ARITH != expected_image || reads.len() > 2 {
+                    return Err(self.fail("trace", format!("expected at most two reads of RFLAGS delivering system flags {expected_image:#x}, executed {:x?}", out.trace)));
+                }
+                if seen != a & RFLAGS_ALL {
+                    return Err(self.fail("return-value", format!("the closure of update saw {seen:#x}; the register read {a:#x}, whose modelled bits are {:#x}", a & RFLAGS_ALL)));
+                }
+                let nv = (b & !RFLAGS_ALL) | ((a & RFLAGS_ALL) ^ x);
+                self.m.iflag = nv & 0x200 != 0;
+                self.m.fl_sys = nv & RFLAGS_SYS_SAFE;
+                let mut evs: Vec<Ev> = reads.iter().map(|v| Ev::Pushfq { val: *v }).collect();
+                evs.push(Ev::Popfq { val: nv });
+                self.finish(out, Exp::new(evs, Some(vec![])))
             }
             "rflags_write" => {
                 let f = self.u("f") & RFLAGS_ARG_SAFE;
@@ -1539,11 +1606,11 @@ impl<'a> Cx<'a> {
         }
         match op.as_str() {
             o if o.starts_with("cr2_") || o.starts_with("cr3_") => self.control_op(),
-            "dr_read" | "dr_write" | "dr7_read_fields" | "dr7_write_fields" => self.debug_op(),
+            "dr_read" | "dr_write" | "dr7_read_fields" | "dr7_write_fields" | "dr6_traps" => self.debug_op(),
             "msr_read" | "msr_write" | "base_read" | "base_write" | "lstar_read" | "lstar_write" | "star_read" | "star_read_raw" | "star_write" | "star_write_raw" => self.msr_op(),
             "cet_read" | "cet_write" | "cet_update" | "pat_read" | "pat_write" | "apic_read" | "apic_read_raw" | "apic_write" | "apic_write_raw" => self.cet_pat_apic_op(),
             "seg_get" | "seg_set" | "seg_read_base" | "seg_write_base" | "gs_swap" | "load_tss" => self.seg_op(),
-            "rflags_read" | "rflags_read_raw" | "rflags_write" | "rflags_write_raw" => self.rflags_op(),
+            "rflags_read" | "rflags_read_raw" | "rflags_write" | "rflags_write_raw" | "rflags_update" => self.rflags_op(),
             "rwr" | "gs_swap_reads" => self.compound_op(),
             "mxcsr" => self.mxcsr_op(),
             _ => Ok(()),
@@ -1603,7 +1670,7 @@ const FAST_OPS: &[(&str, u32)] = &[
     ("cr2_read", 2), ("cr2_read_raw", 1),
     ("cr3_read", 2), ("cr3_read_raw", 2), ("cr3_read_pcid", 2), ("cr3_write", 3), ("cr3_write_raw", 2), ("cr3_write_pcid", 3),
     ("cr3_write_pcid_nf", 2), ("cr3_update", 2), ("cr3_update_pcid", 2), ("cr3_update_pcid_nf", 2),
-    ("dr_read", 3), ("dr_write", 3), ("dr6_read", 1), ("dr6_read_raw", 1),
+    ("dr_read", 3), ("dr_write", 3), ("dr6_read", 1), ("dr6_read_raw", 1), ("dr6_traps", 1),
     ("dr7_read", 2), ("dr7_read_raw", 1), ("dr7_read_fields", 2), ("dr7_write", 3), ("dr7_write_fields", 3), ("dr7_write_raw", 2), ("dr7_update", 2),
     ("xcr0_write_raw", 2),
     ("msr_read", 3), ("msr_write", 3),
@@ -1622,7 +1689,7 @@ const FAST_OPS: &[(&str, u32)] = &[
 const MON_OPS: &[(&str, u32)] = &[
     ("xcr0_read", 2), ("xcr0_read_raw", 1), ("xcr0_write", 3), ("xcr0_update", 2),
     ("seg_get", 3), ("seg_set", 5), ("seg_read_base", 2), ("seg_write_base", 2),
-    ("rflags_read", 2), ("rflags_read_raw", 1), ("rflags_write", 3), ("rflags_write_raw", 1),
+    ("rflags_read", 2), ("rflags_read_raw", 1), ("rflags_write", 3), ("rflags_write_raw", 1), ("rflags_update", 2),
 ];
 
 /// model-specific registers that hold whatever is written (after `sanitize_msr` / canonicalisation)
@@ -1896,7 +1963,7 @@ fn mk(rng: &mut Rng, op: &str, like: Option<&Value>) -> Value {
         "dr_write" => json!({"op": op, "n": rng.below(4), "v": any64(rng)}),
         "dr7_write_fields" => {
             let f4 = |rng: &mut Rng| -> Vec<u64> { (0..4).map(|_| rng.below(4)).collect() };
-            json!({"op": op, "flags": sub(rng, DR7_FLAGS), "cond": f4(rng), "size": f4(rng)})
+            json!({"op": op, "flags": sub(rng, DR7_FLAGS), "cond": f4(rng), "size": f4(rng), "helpers": rng.chance(40)})
         }
         "msr_read" => {
             let idx = like.and_then(|l| l["idx"].as_u64()).unwrap_or_else(|| if rng.chance(90) { *rng.pick(&MSR_CHOICES) as u64 } else { rng.next() & 0xffff_ffff });
@@ -1954,11 +2021,12 @@ fn mk(rng: &mut Rng, op: &str, like: Option<&Value>) -> Value {
         "seg_get" => json!({"op": op, "seg": sel_arg(rng, "seg", 6)}),
         "seg_set" => {
             let seg = rng.below(6);
-            json!({"op": op, "seg": seg, "sel": seg_selector(rng, seg)})
+            json!({"op": op, "seg": seg, "sel": seg_selector(rng, seg), "built": rng.chance(30)})
         }
         "seg_read_base" => json!({"op": op, "gs": sel_arg(rng, "gs", 2)}),
         "seg_write_base" => json!({"op": op, "gs": rng.below(2), "addr": addr(rng)}),
         "rflags_write" => json!({"op": op, "f": sub(rng, RFLAGS_ARG_SAFE)}),
+        "rflags_update" => json!({"op": op, "xor": sub(rng, RFLAGS_ARG_SAFE)}),
         "rflags_write_raw" => json!({"op": op, "v": sub(rng, RFLAGS_ARG_SAFE) | 2}),
         _ => json!({"op": op}),
     }
